@@ -41,7 +41,7 @@ LEVEL_TEXT = "Random exploration; every generated command is really executed by 
 LEVEL_NOTE = "bash, the stub scripts, the reference curl argv model"
 QUICK_N = 14_000
 THOROUGH_N = 400_000
-BUDGET_S = (150, 3600)
+BUDGET_S = (300, 7200)
 
 BASH = "/bin/bash"
 TOKEN = set(b"!#$%&'*+-.^_`|~0123456789abcdefghijklmnopqrstuvwxyzABCDEFGHIJKLMNOPQRSTUVWXYZ")
@@ -267,6 +267,11 @@ def curl_model(argv):
 
 
 # ------------------------------------------------------------------ expectations (computed from the case, not the Request)
+def _up(b):
+    """Request.method upper-cases the method (as text); methods are compared modulo that normalisation"""
+    return bytes(b).decode("utf-8", "surrogateescape").upper()
+
+
 def default_port(scheme):
     return 443 if scheme == "https" else 80
 
@@ -459,8 +464,8 @@ def check_case(case, ctx):
             if m["problems"]:
                 ctx.fail("curl-args:unparsable", desc + " %r" % (m["problems"],))
             # method
-            if m["method"].upper() != case["method"].upper():
-                sub = "get-with-body-becomes-post" if (case["method"].upper() == b"GET" and m["data"] and m["x"] is None) else "other"
+            if _up(m["method"]) != _up(case["method"]):
+                sub = "get-with-body-becomes-post" if (_up(case["method"]) == "GET" and m["data"] and m["x"] is None) else "other"
                 ctx.fail("curl-method:%s" % sub, desc + " curl would send %r" % (m["method"],))
             # url
             if len(m["urls"]) != 1 or m["urls"][0] not in urls:
@@ -526,7 +531,7 @@ def check_case(case, ctx):
         if _shell_ok("httpie", rc, err, calls, left, ctx, desc):
             argv = calls[0][1]
             exp, _ = expected_headers(case, "httpie")
-            if len(argv) < 2 or argv[0].upper() != case["method"].upper():
+            if len(argv) < 2 or _up(argv[0]) != _up(case["method"]):
                 ctx.fail("httpie-method", desc + " argv=%r" % (argv,))
             elif argv[1] not in urls:
                 unbr = urls_for(case, True)
